@@ -144,7 +144,8 @@ def real_tuples(doc):
         u = [v // 1000 for v in n]
         br = 1 if "broken" in e["cls"] else 0
         if e["k"] == "line":
-            out.append(("line", u[0], u[1], u[2], u[3], br))
+            mk = sorted(c for c in e["cls"] if "marked" in c)
+            out.append(("line", u[0], u[1], u[2], u[3], br, ",".join(mk)))
         elif e["k"] == "rect":
             out.append(("rect", u[0], u[1], u[2], u[3], u[4], br))
         elif e["k"] == "path":
@@ -152,6 +153,8 @@ def real_tuples(doc):
                         e["fl"][1] if len(e["fl"]) == 3 else -1))
         elif e["k"] == "text":
             out.append(("text", u[0], u[1], tuple(e["s"])))
+        elif e["k"] == "circle":
+            out.append(("circle", u[0], u[1], u[2], 1 if "filled" in e["cls"] else 0))
         else:
             out.append((e["k"],) + tuple(u))
     return Counter(out)
